@@ -547,6 +547,12 @@ pub fn observe(model: &str, toks: &[&str]) -> String {
     if model == "C18L" {
         return observe_files(&[unhex(toks[0])]).remove(0);
     }
+    if model == "C18F" {
+        let seed: u64 = toks[0].parse().unwrap();
+        let mut pos = 1;
+        let sx = SX::parse(toks, &mut pos).expect("doc tokens");
+        return observe_foreign(&[(seed, parse_doc(&sx))]).remove(0);
+    }
     let mut pos = 0;
     let sx = SX::parse(toks, &mut pos).expect("doc tokens");
     let d = parse_doc(&sx);
@@ -561,6 +567,8 @@ struct G {
     /// 1 tab/line break in attribute values, 2 CR in lib text, 3 characters XML forbids,
     /// 4 lib strings/keys with blanks at an end, 5 a date `Date::to_xml_format` cannot print
     dirty: u8,
+    /// only documents inside the stated well-formedness (used by the foreign-surface stream)
+    strict: bool,
 }
 
 const CLEAN_BOTH: [&str; 22] = [
@@ -831,7 +839,7 @@ impl G {
         }
         // a small share of documents outside the stated well-formedness: the model still has to predict
         // what save/load does with them
-        if self.rng.chance(1, 25) {
+        if !self.strict && self.rng.chance(1, 25) {
             match self.rng.below(9) {
                 0 => d.sources[0].location.clear(),
                 1 => d.axes[0].map = Some(vec![]),
@@ -853,6 +861,532 @@ impl G {
             }
         }
         d
+    }
+}
+
+
+// ------------------------------------------------------------------ foreign surface (load only)
+//
+// `C18F <seed> <doc> => surf:<features> alts ( F* ) ( D* ) <tree|notxml> load:ok eq:<0|1> <doc> | load:err`
+//
+// The same document written by an independent writer the way other tools spell it: other declaration
+// (double quotes, lower-case encoding name, none, a BOM), attribute order shuffled, single-quoted
+// attributes, numeric character references, CDATA sections in lib strings, comments between elements,
+// explicit close tags, CRLF / tab / no indentation, numbers as `400.0` / `4e2`, `hidden="1"`, long `<data>`
+// wrapped at 76 columns (as plistlib / Apple write it), and the format-5 elements and attributes norad
+// does not model (`labelname`, `labels`, `mappings`, `variable-fonts`, `elidedfallbackname`, `xml:lang`).
+// Oracle: the loaded document equals the description.
+
+struct FW {
+    rng: Rng,
+    out: String,
+    nl: &'static str,
+    unit: &'static str,
+    alts32: Vec<String>,
+    alts64: Vec<String>,
+    feats: std::collections::BTreeSet<&'static str>,
+    wrap_data: bool,
+}
+
+impl FW {
+    fn ind(&mut self, depth: usize) {
+        for _ in 0..depth {
+            self.out.push_str(self.unit);
+        }
+    }
+    fn esc(&mut self, s: &str, quote: Option<char>, refs: bool) -> String {
+        let mut o = String::new();
+        for ch in s.chars() {
+            match ch {
+                '&' => o.push_str("&amp;"),
+                '<' => o.push_str("&lt;"),
+                // `]]>` must not appear in character data; in attribute values a raw `>` is fine
+                '>' => o.push_str(if quote.is_none() || self.rng.chance(1, 2) { "&gt;" } else { ">" }),
+                '"' if quote == Some('"') => o.push_str("&quot;"),
+                '\'' if quote == Some('\'') => o.push_str("&apos;"),
+                '"' | '\'' if self.rng.chance(1, 3) => o.push_str(if ch == '"' { "&quot;" } else { "&#39;" }),
+                c if refs && c.is_ascii_alphanumeric() && self.rng.chance(1, 12) => {
+                    self.feats.insert("charref");
+                    if self.rng.chance(1, 2) {
+                        o.push_str(&format!("&#x{:X};", c as u32))
+                    } else {
+                        o.push_str(&format!("&#{};", c as u32))
+                    }
+                }
+                c if refs && (c as u32) > 0x7f && self.rng.chance(1, 4) => {
+                    self.feats.insert("charref");
+                    o.push_str(&format!("&#x{:x};", c as u32))
+                }
+                c => o.push(c),
+            }
+        }
+        o
+    }
+    fn num_spelling(&mut self, shown: String, exp: String) -> Option<String> {
+        let plain_int = shown.chars().all(|c| c.is_ascii_digit() || c == '-') && shown.len() < 12;
+        match self.rng.below(6) {
+            0 if plain_int => Some(format!("{}.0", shown)),
+            1 if plain_int => Some(format!("{}.00", shown)),
+            2 if shown != "inf" && shown != "-inf" && shown != "NaN" => Some(exp),
+            _ => None,
+        }
+    }
+    fn f32s(&mut self, x: f32) -> String {
+        match self.num_spelling(x.to_string(), format!("{:e}", x)) {
+            Some(sp) => {
+                self.feats.insert("number-spelling");
+                self.alts32.push(format!("{:08x}:{}", x.to_bits(), hexs(&sp)));
+                sp
+            }
+            None => x.to_string(),
+        }
+    }
+    fn f64s(&mut self, x: f64) -> String {
+        match self.num_spelling(x.to_string(), format!("{:e}", x)) {
+            Some(sp) => {
+                self.feats.insert("number-spelling");
+                self.alts64.push(format!("{:016x}:{}", x.to_bits(), hexs(&sp)));
+                sp
+            }
+            None => x.to_string(),
+        }
+    }
+    fn comment(&mut self, depth: usize) {
+        if self.rng.chance(1, 6) {
+            self.feats.insert("comment");
+            self.ind(depth);
+            self.out.push_str("<!-- a comment with <tags> & \"quotes\" -->");
+            self.out.push_str(self.nl);
+        }
+    }
+    /// start tag with shuffled, variously quoted attributes; `close`: 0 = open, 1 = empty element
+    fn tag(&mut self, depth: usize, name: &str, attrs: Vec<(&str, String)>, empty: bool) {
+        self.comment(depth);
+        self.ind(depth);
+        self.out.push('<');
+        self.out.push_str(name);
+        let mut attrs = attrs;
+        // Fisher-Yates
+        for i in (1..attrs.len()).rev() {
+            let j = self.rng.below(i + 1);
+            attrs.swap(i, j);
+        }
+        for (k, v) in attrs {
+            let q = if self.rng.chance(1, 2) { '\'' } else { '"' };
+            if q == '\'' {
+                self.feats.insert("single-quotes");
+            }
+            let sep = if self.rng.chance(1, 10) { format!("{} {}", self.nl, self.unit) } else { " ".to_string() };
+            // character references only in free-text attributes (nobody spells numbers or keywords with them)
+            let free = !matches!(
+                k,
+                "format" | "default" | "minimum" | "maximum" | "values" | "input" | "output" | "uservalue" | "xvalue"
+                    | "yvalue" | "hidden" | "processing"
+            );
+            let e = self.esc(&v, Some(q), free);
+            self.out.push_str(&format!("{}{}={}{}{}", sep, k, q, e, q));
+        }
+        if empty {
+            match self.rng.below(3) {
+                0 => self.out.push_str("/>"),
+                1 => self.out.push_str(" />"),
+                _ => {
+                    self.feats.insert("explicit-close");
+                    self.out.push_str(&format!("></{}>", name))
+                }
+            }
+        } else {
+            self.out.push('>');
+        }
+        self.out.push_str(self.nl);
+    }
+    fn close(&mut self, depth: usize, name: &str) {
+        self.ind(depth);
+        self.out.push_str(&format!("</{}>{}", name, self.nl));
+    }
+    fn os(attrs: &mut Vec<(&'static str, String)>, k: &'static str, v: &Option<String>) {
+        if let Some(v) = v {
+            attrs.push((k, v.clone()));
+        }
+    }
+    fn of(&mut self, attrs: &mut Vec<(&'static str, String)>, k: &'static str, v: &Option<f32>) {
+        if let Some(v) = v {
+            let s = self.f32s(*v);
+            attrs.push((k, s));
+        }
+    }
+    fn location(&mut self, depth: usize, l: &[Dimension]) {
+        self.tag(depth, "location", vec![], false);
+        for d in l {
+            let mut a = vec![("name", d.name.clone())];
+            self.of(&mut a, "uservalue", &d.uservalue);
+            self.of(&mut a, "xvalue", &d.xvalue);
+            self.of(&mut a, "yvalue", &d.yvalue);
+            self.tag(depth + 1, "dimension", a, true);
+        }
+        self.close(depth, "location");
+    }
+    fn leaf(&mut self, depth: usize, name: &str, text: &str, is_string: bool) {
+        self.ind(depth);
+        if text.is_empty() {
+            if self.rng.chance(1, 2) {
+                self.out.push_str(&format!("<{}/>{}", name, self.nl));
+            } else {
+                self.out.push_str(&format!("<{}></{}>{}", name, name, self.nl));
+            }
+            return;
+        }
+        let body = if is_string && !text.contains("]]>") && self.rng.chance(1, 5) {
+            self.feats.insert("cdata");
+            format!("<![CDATA[{}]]>", text)
+        } else {
+            self.esc(text, None, is_string)
+        };
+        self.out.push_str(&format!("<{}>{}</{}>{}", name, body, name, self.nl));
+    }
+    fn pv(&mut self, depth: usize, v: &Value) {
+        match v {
+            Value::String(s) => self.leaf(depth, "string", s, true),
+            Value::Integer(i) => {
+                let t = match i.as_signed() {
+                    Some(x) => x.to_string(),
+                    None => i.as_unsigned().unwrap().to_string(),
+                };
+                self.leaf(depth, "integer", &t, false)
+            }
+            Value::Real(r) => {
+                let t = self.f64s(*r);
+                self.leaf(depth, "real", &t, false)
+            }
+            Value::Boolean(b) => {
+                let n = if *b { "true" } else { "false" };
+                self.ind(depth);
+                if self.rng.chance(1, 4) {
+                    self.out.push_str(&format!("<{}></{}>{}", n, n, self.nl));
+                } else {
+                    self.out.push_str(&format!("<{}/>{}", n, self.nl));
+                }
+            }
+            Value::Data(d) => {
+                let b64 = b64(d);
+                if self.wrap_data && b64.len() > 76 {
+                    // plistlib / Apple: lines of 76 columns, each indented, close tag on its own line
+                    self.feats.insert("data-wrapped");
+                    self.ind(depth);
+                    self.out.push_str("<data>");
+                    self.out.push_str(self.nl);
+                    let mut i = 0;
+                    while i < b64.len() {
+                        let j = (i + 76).min(b64.len());
+                        self.ind(depth);
+                        self.out.push_str(&b64[i..j]);
+                        self.out.push_str(self.nl);
+                        i = j;
+                    }
+                    self.ind(depth);
+                    self.out.push_str("</data>");
+                    self.out.push_str(self.nl);
+                } else if !b64.is_empty() && self.rng.chance(1, 3) {
+                    // surrounded by white space only (as in norad's own unit test)
+                    self.ind(depth);
+                    self.out.push_str(&format!("<data>{}{}{}</data>{}", self.nl, b64, self.nl, self.nl));
+                } else {
+                    self.leaf(depth, "data", &b64, false)
+                }
+            }
+            Value::Date(d) => self.leaf(depth, "date", &d.to_xml_format(), false),
+            Value::Array(xs) => {
+                if xs.is_empty() && self.rng.chance(1, 2) {
+                    self.ind(depth);
+                    self.out.push_str(&format!("<array/>{}", self.nl));
+                } else {
+                    self.tag(depth, "array", vec![], false);
+                    for x in xs {
+                        self.pv(depth + 1, x);
+                    }
+                    self.close(depth, "array");
+                }
+            }
+            Value::Dictionary(d) => self.dict(depth, d),
+            _ => {}
+        }
+    }
+    fn dict(&mut self, depth: usize, d: &Dictionary) {
+        if d.is_empty() && self.rng.chance(1, 2) {
+            self.ind(depth);
+            self.out.push_str(&format!("<dict/>{}", self.nl));
+            return;
+        }
+        self.tag(depth, "dict", vec![], false);
+        for (k, v) in d.iter() {
+            self.leaf(depth + 1, "key", k, true);
+            self.pv(depth + 1, v);
+        }
+        self.close(depth, "dict");
+    }
+    fn lib(&mut self, depth: usize, d: &Dictionary) {
+        if d.is_empty() {
+            return;
+        }
+        self.tag(depth, "lib", vec![], false);
+        self.dict(depth + 1, d);
+        self.close(depth, "lib");
+    }
+    fn doc(&mut self, d: &DesignSpaceDocument) {
+        match self.rng.below(5) {
+            0 => self.out.push_str("<?xml version=\"1.0\" encoding=\"UTF-8\"?>\n"),
+            1 => self.out.push_str("<?xml version='1.0' encoding='utf-8'?>\r\n"),
+            2 => self.out.push_str("<?xml version=\"1.0\" encoding=\"UTF-8\" standalone=\"yes\"?>\n"),
+            3 => {
+                self.feats.insert("bom");
+                self.out.push_str("\u{feff}<?xml version=\"1.0\" encoding=\"UTF-8\"?>\n")
+            }
+            _ => {
+                self.feats.insert("no-declaration");
+            }
+        }
+        let f = self.f32s(d.format);
+        self.tag(0, "designspace", vec![("format", f)], false);
+        let mut ax_attrs = vec![];
+        if self.rng.chance(1, 3) {
+            self.feats.insert("ignored-elements");
+            ax_attrs.push(("elidedfallbackname", "Regular".to_string()));
+        }
+        self.tag(1, "axes", ax_attrs, false);
+        for a in &d.axes {
+            let mut at = vec![("name", a.name.clone()), ("tag", a.tag.clone())];
+            let s = self.f32s(a.default);
+            at.push(("default", s));
+            if a.hidden {
+                let h = if self.rng.chance(1, 2) {
+                    self.feats.insert("hidden-1");
+                    "1"
+                } else {
+                    "true"
+                };
+                at.push(("hidden", h.to_string()));
+            }
+            self.of(&mut at, "minimum", &a.minimum);
+            self.of(&mut at, "maximum", &a.maximum);
+            if let Some(vs) = &a.values {
+                let items: Vec<String> = vs.iter().map(|v| self.f32s(*v)).collect();
+                at.push(("values", items.join(" ")));
+            }
+            let extras = self.rng.chance(1, 3);
+            if a.map.is_none() && !extras {
+                self.tag(2, "axis", at, true);
+            } else {
+                self.tag(2, "axis", at, false);
+                if extras {
+                    self.feats.insert("ignored-elements");
+                    self.ind(3);
+                    self.out.push_str(&format!("<labelname xml:lang=\"en\">Label</labelname>{}", self.nl));
+                }
+                if let Some(ms) = &a.map {
+                    for m in ms {
+                        let i = self.f32s(m.input);
+                        let o = self.f32s(m.output);
+                        self.tag(3, "map", vec![("input", i), ("output", o)], true);
+                    }
+                }
+                if extras {
+                    self.ind(3);
+                    self.out.push_str(&format!(
+                        "<labels ordering=\"0\"><label uservalue=\"1\" name=\"One\" elidable=\"true\"/></labels>{}",
+                        self.nl
+                    ));
+                }
+                self.close(2, "axis");
+            }
+        }
+        if self.rng.chance(1, 4) {
+            self.feats.insert("ignored-elements");
+            self.ind(2);
+            self.out.push_str(&format!(
+                "<mappings><mapping><input><dimension name=\"a\" xvalue=\"1\"/></input><output><dimension name=\"a\" xvalue=\"2\"/></output></mapping></mappings>{}",
+                self.nl
+            ));
+        }
+        self.close(1, "axes");
+        if !(d.rules.rules.is_empty() && d.rules.processing == RuleProcessing::First && self.rng.chance(1, 2)) {
+            let mut at = vec![];
+            if d.rules.processing == RuleProcessing::Last {
+                at.push(("processing", "last".to_string()));
+            } else if self.rng.chance(1, 2) {
+                at.push(("processing", "first".to_string()));
+            }
+            if d.rules.rules.is_empty() {
+                self.tag(1, "rules", at, true);
+            } else {
+                self.tag(1, "rules", at, false);
+                for r in &d.rules.rules {
+                    let mut at = vec![];
+                    Self::os(&mut at, "name", &r.name);
+                    self.tag(2, "rule", at, false);
+                    for cs in &r.condition_sets {
+                        if cs.conditions.is_empty() {
+                            self.tag(3, "conditionset", vec![], true);
+                        } else {
+                            self.tag(3, "conditionset", vec![], false);
+                            for c in &cs.conditions {
+                                let mut at = vec![("name", c.name.clone())];
+                                self.of(&mut at, "minimum", &c.minimum);
+                                self.of(&mut at, "maximum", &c.maximum);
+                                self.tag(4, "condition", at, true);
+                            }
+                            self.close(3, "conditionset");
+                        }
+                    }
+                    for sb in &r.substitutions {
+                        self.tag(3, "sub", vec![("name", sb.name.to_string()), ("with", sb.with.to_string())], true);
+                    }
+                    self.close(2, "rule");
+                }
+                self.close(1, "rules");
+            }
+        }
+        self.tag(1, "sources", vec![], false);
+        for s in &d.sources {
+            let mut at = vec![("filename", s.filename.clone())];
+            Self::os(&mut at, "familyname", &s.familyname);
+            Self::os(&mut at, "stylename", &s.stylename);
+            Self::os(&mut at, "name", &s.name);
+            Self::os(&mut at, "layer", &s.layer);
+            self.tag(2, "source", at, false);
+            if self.rng.chance(1, 4) {
+                self.feats.insert("ignored-elements");
+                self.ind(3);
+                self.out.push_str(&format!("<info copy=\"1\"/><features copy=\"1\"/>{}", self.nl));
+            }
+            self.location(3, &s.location);
+            self.close(2, "source");
+        }
+        self.close(1, "sources");
+        if self.rng.chance(1, 4) {
+            self.feats.insert("ignored-elements");
+            self.ind(1);
+            self.out.push_str(&format!(
+                "<variable-fonts><variable-font name=\"VF\"><axis-subsets><axis-subset name=\"Weight\"/></axis-subsets></variable-font></variable-fonts>{}",
+                self.nl
+            ));
+        }
+        if !d.instances.is_empty() {
+            self.tag(1, "instances", vec![], false);
+            for i in &d.instances {
+                let mut at = vec![];
+                Self::os(&mut at, "familyname", &i.familyname);
+                Self::os(&mut at, "stylename", &i.stylename);
+                Self::os(&mut at, "name", &i.name);
+                Self::os(&mut at, "filename", &i.filename);
+                Self::os(&mut at, "postscriptfontname", &i.postscriptfontname);
+                Self::os(&mut at, "stylemapfamilyname", &i.stylemapfamilyname);
+                Self::os(&mut at, "stylemapstylename", &i.stylemapstylename);
+                self.tag(2, "instance", at, false);
+                // the lib before or after the location
+                if self.rng.chance(1, 2) {
+                    self.lib(3, &i.lib);
+                    self.location(3, &i.location);
+                } else {
+                    self.location(3, &i.location);
+                    self.lib(3, &i.lib);
+                }
+                if self.rng.chance(1, 4) {
+                    self.feats.insert("ignored-elements");
+                    self.ind(3);
+                    self.out.push_str(&format!("<kerning/><info/>{}", self.nl));
+                }
+                self.close(2, "instance");
+            }
+            self.close(1, "instances");
+        }
+        self.lib(1, &d.lib);
+        self.close(0, "designspace");
+    }
+}
+
+fn b64(d: &[u8]) -> String {
+    const T: &[u8; 64] = b"ABCDEFGHIJKLMNOPQRSTUVWXYZabcdefghijklmnopqrstuvwxyz0123456789+/";
+    let mut o = String::new();
+    for ch in d.chunks(3) {
+        let n = ((ch[0] as u32) << 16) | ((*ch.get(1).unwrap_or(&0) as u32) << 8) | (*ch.get(2).unwrap_or(&0) as u32);
+        o.push(T[(n >> 18) as usize & 63] as char);
+        o.push(T[(n >> 12) as usize & 63] as char);
+        o.push(if ch.len() > 1 { T[(n >> 6) as usize & 63] as char } else { '=' });
+        o.push(if ch.len() > 2 { T[n as usize & 63] as char } else { '=' });
+    }
+    o
+}
+
+/// (file bytes, "surf:… alts ( … ) ( … )")
+fn foreign_file(d: &DesignSpaceDocument, seed: u64) -> (Vec<u8>, String) {
+    let mut rng = Rng::new(seed ^ 0xF0E1);
+    let nl = *rng.pick(&["\n", "\n", "\r\n", ""]);
+    let unit = *rng.pick(&["  ", "    ", "\t", ""]);
+    let wrap_data = rng.chance(1, 3);
+    let mut w = FW {
+        rng,
+        out: String::new(),
+        nl,
+        unit,
+        alts32: vec![],
+        alts64: vec![],
+        feats: Default::default(),
+        wrap_data,
+    };
+    if nl == "\r\n" {
+        w.feats.insert("crlf");
+    }
+    if nl.is_empty() {
+        w.feats.insert("no-whitespace");
+    }
+    w.doc(d);
+    let feats: Vec<&str> = w.feats.iter().cloned().collect();
+    let head = format!(
+        "surf:{} alts ( {} ) ( {} )",
+        if feats.is_empty() { "-".to_string() } else { feats.join(",") },
+        w.alts32.join(" "),
+        w.alts64.join(" ")
+    )
+    .replace("(  )", "( )");
+    (w.out.into_bytes(), head)
+}
+
+pub fn observe_foreign(cases: &[(u64, DesignSpaceDocument)]) -> Vec<String> {
+    let dir = scratch_dir();
+    let mut paths = Vec::new();
+    let mut heads = Vec::new();
+    for (i, (seed, d)) in cases.iter().enumerate() {
+        let (bytes, head) = foreign_file(d, *seed);
+        let p = dir.join(format!("f{}.designspace", i));
+        std::fs::write(&p, &bytes).unwrap();
+        if std::env::var("VERIF_C18_DEBUG").is_ok() {
+            eprintln!("{}\n--> {:?}", String::from_utf8_lossy(&bytes), DesignSpaceDocument::load(&p).map(|_| ()));
+        }
+        paths.push(p);
+        heads.push(head);
+    }
+    let trees = py_trees(&paths);
+    let out = (0..cases.len())
+        .map(|i| format!("{} {} {}", heads[i], trees[i], load_obs(&paths[i], Some(&cases[i].1))))
+        .collect();
+    for p in &paths {
+        rm_rf(p);
+    }
+    out
+}
+
+fn gen_foreign(tier: &str, seed: u64, out: &mut impl Write) {
+    let n = if tier == "quick" { 1500 } else { 30_000 };
+    let mut g = G { rng: Rng::new(seed ^ 0xC18F), dirty: 0, strict: true };
+    let mut done = 0;
+    while done < n {
+        let m = 500.min(n - done);
+        let cases: Vec<(u64, DesignSpaceDocument)> = (0..m).map(|_| (g.rng.next() % 1_000_000, g.doc())).collect();
+        let obs = observe_foreign(&cases);
+        for ((s, d), o) in cases.iter().zip(obs.iter()) {
+            writeln!(out, "C18F {} {} => {}", s, doc_tok(d).to_line(), o).unwrap();
+        }
+        done += m;
     }
 }
 
@@ -994,7 +1528,7 @@ pub fn gen(tier: &str, seed: u64, out: &mut impl Write) {
         return gen_witness(out);
     }
     let n = if tier == "quick" { 3000 } else { 100_000 };
-    let mut g = G { rng: Rng::new(seed ^ 0xC18), dirty: 0 };
+    let mut g = G { rng: Rng::new(seed ^ 0xC18), dirty: 0, strict: false };
     let batch = 500;
     let mut done = 0;
     while done < n {
@@ -1011,4 +1545,5 @@ pub fn gen(tier: &str, seed: u64, out: &mut impl Write) {
         }
         done += m;
     }
+    gen_foreign(tier, seed, out);
 }
